@@ -9,4 +9,4 @@ Extraction "extracted/types_model.ml"
   legacy_cfg f7_cfg fixed_cfg partial_cfg current_cfg check_rel is_compatible_with types_overlap_with
   union_type_ids intersect_types compute_complement filter_variants_by_field
   closedb cycle_freeb enum_inhab inhabb
-  cex_sound cex_disjoint cex_intersect cex_complement count.
+  cex_sound cex_disjoint cex_intersect cex_complement cex_filter count current_filter_by_overlap.
